@@ -63,7 +63,22 @@ def capture(source, **opts):
         rec['prefix_globals'] = bool(prefix_globals)
         rec['preserved'] = list(preserved_globals or [])
         rec['tainted'] = bool(getattr(module, 'tainted', False))
+        # `should_rename` can depend on what was renamed earlier (a `@classmethod` decorator already spelled through an alias makes
+        # `cls` no longer renamable in place): record the answers the real run actually got, at the time it asked
+        asked = {}
+        for i, b in enumerate(objs):
+            def rec_should(name, _b=b, _i=i, _orig=b.should_rename):
+                v = _orig(name)
+                asked.setdefault((_i, len(name)), bool(v))
+                return v
+            try:
+                b.should_rename = rec_should
+            except Exception:
+                pass
         r = real(module, prefix_globals=prefix_globals, preserved_globals=preserved_globals)
+        for (i, k), v in asked.items():
+            if 1 <= k <= 4:
+                rows[i]['should'][k - 1] = v
         rec['finals'] = [b.name for b in objs]
         return r
     python_minifier.rename = wrapper
